@@ -9,7 +9,7 @@ import sys
 
 from harness.worlds import lifeworld as LW
 from ptera.overlay import HandlerCollection
-from ptera.probe import Probe, global_probes
+from ptera.probe import OverridableProbe, Probe, global_probes
 
 PROBES = {
     "p1": "f > a",
@@ -23,6 +23,8 @@ PROBES = {
     "p9": "f(a as ta)",
     "p10": ("f > a", "f(!a)"),
     "p11": "f > $v:@T",
+    "p14": "f > a",
+    "p15": "f > a",
     "p12": "h1 > a",
     "p13": "h2 > a",
     "q2": "f > b",
@@ -111,6 +113,11 @@ def run_case(case):
                 if data["ta"].values == [13]:
                     raise KeyError("listener")
             p.subscribe(boom)
+        elif pid in ("p14", "p15"):
+            # overridable: the event reaches the stream through the intercept call; the pipeline answers with the value itself
+            p = OverridableProbe(text, env=ENV)
+            p.subscribe(lambda data, pid=pid: recv[pid].append(sorted([k, v] for k, v in data.items())))
+            p.override(lambda data: data["a"])
         else:
             p = Probe(*text, env=ENV) if isinstance(text, tuple) else Probe(text, env=ENV)
             p.subscribe(lambda data, pid=pid: recv[pid].append(sorted([k, v] for k, v in data.items())))
